@@ -13,7 +13,10 @@ pub proof fn axiom_cow_cell_ref(c: &VCell) ensures cow_cell::<&VCell>(c) == *c {
 pub assume_specification<'a, T: Into<std::borrow::Cow<'a, VCell>>> [Heap::get] (h: &Heap, v: T) -> (r: VCell) ensures r == heap_deref(*h, cow_cell(v));
 pub assume_specification [Heap::get_as_cell] (h: &Heap, v: &VCell) -> (r: Cell);
 /// allocation through the (here opaque) heap: nothing is known about the result
-pub assume_specification<T: Into<VCell> + Clone> [Heap::put] (h: &mut Heap, v: T) -> (r: VCell);
+/// (proved in unit `heap` against the real body: the cell handed back holds the value put; a pointer is passed through)
+pub assume_specification<T: Into<VCell> + Clone> [Heap::put] (h: &mut Heap, v: T) -> (r: VCell)
+    ensures <T as vstd::std_specs::convert::IntoSpec<VCell>>::obeys_into_spec() && !(<T as vstd::std_specs::convert::IntoSpec<VCell>>::into_spec(v) is Ptr)
+        ==> r is Ptr && heap_deref(*final(h), r) == <T as vstd::std_specs::convert::IntoSpec<VCell>>::into_spec(v);
 pub assume_specification<T: Into<VCell> + Clone> [Heap::maybe_put] (h: &mut Heap, v: T) -> (r: VCell);
 /// rendering a datum / a number for an error message cannot fail
 impl vstd::std_specs::fmt::DisplaySpecImpl for Cell { open spec fn fmt_req(&self, f: &core::fmt::Formatter<'_>) -> bool { true } }
